@@ -411,7 +411,7 @@ fn exec(c: &Case) -> Vec<String> {
             std::panic::resume_unwind(e);
         }
     });
-    match rx.recv_timeout(Duration::from_secs(5)) {
+    match rx.recv_timeout(Duration::from_secs(5 * nvh::load_factor() as u64)) {
         Ok(()) => {
             if let Err(e) = h.join() {
                 std::panic::resume_unwind(e); // becomes `panic:<class>` in `guarded`
